@@ -165,13 +165,26 @@ def check_relations(h, rnd, reps):
     for _ in range(reps):
         for label, flt, r, exp, side in relation_cases(rnd):
             acc.hook("relation")
+            # the key in its three spellings: attribute, nested attribute, tag
+            kf = rnd.choice(["k", "k", "k", "a.b", "tag:Team"])
+            flt = dict(flt, key=kf)
+            doc = {"k": {"k": r, "other": 1}, "a.b": {"a": {"b": r, "c": 0}, "other": 1}, "tag:Team": {"Tags": [{"Key": "Other", "Value": "zz"}, {"Key": "Team", "Value": r}, {"Key": "Team", "Value": "later"}], "other": 1}}[kf]
+            label = label if kf == "k" else f"{label} key={'nested' if kf == 'a.b' else 'tag'}"
+            related_first = rnd.random() < 0.25
+            if related_first:
+                # the same key text translated first by a clause type that resolves it against another variable
+                acc.hook("related-clause-first")
+                try:
+                    h.rewrite({"type": rnd.choice(["security-group", "subnet", "vpc"]), "key": kf, "op": "eq", "value": "zz"})
+                except Exception:
+                    pass
             try:
                 text = h.rewrite(flt)
             except Exception as ex:
                 acc.violation(f"rewrite raises {type(ex).__name__} {label}", f"primitive({flt}) raised {type(ex).__name__}: {core._msg(ex)}", {"kind": "relation", "filter": flt, "r": r})
                 continue
             acc.nt([label, side, json.dumps(flt, sort_keys=True), json.dumps(r)])
-            binds = {"resource": h.to_cel({"k": r, "other": 1}), "now": now}
+            binds = {"resource": h.to_cel(doc), "now": now}
             for rn in "IC":
                 out = h.evaluate(rn, text, binds)
                 got = bool(out[1][1]) if out[0] == "V" and out[1][0] in ("BoolType", "bool") else None
@@ -180,7 +193,7 @@ def check_relations(h, rnd, reps):
                     acc.violation(
                         f"{rn} relation {label} resource-{side} obs={got if got is not None else diag.oclass(out).split('@')[0]} exp={exp}",
                         f"{'interpreted' if rn == 'I' else 'compiled'}: {flt} -> {text!r} on r[k]={r!r} gave {core.jkey(out)[:60]}, the relation gives {exp}",
-                        {"kind": "relation", "filter": flt, "r": r, "runner": rn, "expected": exp},
+                        {"kind": "relation", "filter": flt, "r": r, "doc": doc, "runner": rn, "expected": exp},
                     )
             # a resource lacking the key: recorded, not asserted
             out = h.evaluate("I", text, {"resource": h.to_cel({"other": 1}), "now": now})
@@ -429,7 +442,7 @@ def replay(case):
     if case["kind"] == "relation":
         text = h.rewrite(case["filter"])
         now = MV.to_cel(("ts", NOW_US))
-        out = h.evaluate(case.get("runner", "I"), text, {"resource": h.to_cel({"k": case["r"], "other": 1}), "now": now})
+        out = h.evaluate(case.get("runner", "I"), text, {"resource": h.to_cel(case.get("doc") or {"k": case["r"], "other": 1}), "now": now})
         got = bool(out[1][1]) if out[0] == "V" and out[1][0] in ("BoolType", "bool") else None
         return got == case.get("expected"), f"{case['filter']} -> {text!r}; r[k]={case['r']!r} -> {out}; expected {case.get('expected')}"
     if case["kind"] == "q":
